@@ -13,6 +13,7 @@ import Ctrmml.Proofs.CodecBreak
 import Ctrmml.Proofs.CodecWalkLoops
 import Ctrmml.Proofs.CodecTrack
 import Ctrmml.Proofs.SongFragment
+import Ctrmml.Proofs.SongOptC01
 namespace Ctrmml.C03
 open Ctrmml Ctrmml.Mds Ctrmml.Seq Tables
 
@@ -395,5 +396,59 @@ theorem C03_song_wellformed_partial (song : Song) (d : DataInfo) (vol : Option S
       simp only [Option.some.injEq, List.length_eq_zero_iff, List.filter_eq_nil_iff] at h0
       have := h0 tk htk
       cases tk <;> simp [SongTop.isCmd] at hck this
+
+/-! ## Optimised songs (round 5) -/
+
+open Ctrmml.Expand Ctrmml.Opt Ctrmml.OptSteps Ctrmml.C01 in
+/-- **C03 on optimised songs.**  The optimiser's result, when it validates and lies in the fragment,
+compiles to well-formed streams: under the hypotheses of `C01_optimize_preserves` on the ORIGINAL song
+and those of `C03_song_wellformed_partial` on the OPTIMISED song `r.song`, for every channel track
+whose expected tick string is defined IN THE ORIGINAL SONG (`Timeline.expected song pf root = .ok t`
+— the optimised song's own expected string need not be assumed defined: it is the same,
+`SongOpt.optimised_expected_eq`; extra hypothesis as in `C02_optimised_song_roundtrip_partial`: drum
+routines resolve alike in both songs, `SongOpt.DrumAlike`, vacuous without drum mode) the walker
+accepts the stream of the optimised song's chunk, the interpreter stays in bounds however often the
+loop-back is followed, and the loop-back jump spans time. -/
+theorem C03_optimised_song_wellformed_partial (valid : Song → Bool) (hvalid : ∀ s, valid s = true → validAll s = true)
+    (song : Song) (minScore : Int) (fuel : Nat) (r : OptResult) (d : DataInfo) (vol : Option String)
+    (pf : Timeline.Platform) (b : MdsFile.Built)
+    (hwf : SongWF song) (hsorted : (song.tracks.map (·.1)).Pairwise (· < ·))
+    (hids : ∀ p ∈ song.tracks, p.1 < 32767)
+    (hok : ∀ id, song.track? id ≠ none → okTrack song id)
+    (hr : optimize valid minScore fuel song (initialSubId song) [] = .ok r) (hv : r.validated = true)
+    (hcnt : initialSubId song + (r.passes.length : Int) < 32768)
+    (hpc : PlatformClean d) (hp : SongTop.PlainSong r.song)
+    (hb : MdsFile.construct r.song d vol = .ok b) (hlen : b.seq.length < 65536) (hR : SongTop.RoutinesOK r.song b)
+    (hpa : SongTop.PlatAgree d.platform pf) :
+    ∀ id root root' t, (id, root) ∈ song.tracks → (id, root') ∈ r.song.tracks → id < 16 →
+      Timeline.inDomain r.song root' = true → SongSplit.segCount root' ≤ 1 → SongTop.LoopDrumOK root' →
+      (∀ items, perf song root = .ok items → SongOpt.DrumAlike song r.song pf (played items)) →
+      Timeline.expected song pf root = .ok t →
+      ∃ base ts start, tracksOf b.seq = some (base, ts) ∧ ts.lookup id = some start ∧
+        (∃ len, start + len ≤ b.seq.length ∧
+          ∀ fuel, fuel ≥ len → SeqWf.walk b.seq start fuel { pc := start } = .ok (start + len)) ∧
+        (∀ mj maxTicks fuel, (run b.seq base mj maxTicks fuel { pc := start }).2 ∈
+          [Stop.finished, Stop.fuel, Stop.tooManyTicks]) ∧
+        (∀ maxTicks fuel, (run b.seq base 2 maxTicks fuel { pc := start }).2 = Stop.finished →
+          SeqWf.ticksBetweenLoops (run b.seq base 2 maxTicks fuel { pc := start }).1 ≠ some 0) := by
+  intro id root root' t hmem hmem' hid hdom hseg hloop hdr hexp
+  have hE := SongOpt.optimised_expected_eq valid hvalid song minScore fuel r pf hwf hsorted hids hok hr hv hcnt hp.ids
+    hmem hmem' hdr
+  exact C03_song_wellformed_partial r.song d vol pf b hpc hp hb hlen hR hpa id root' t hmem' hid hdom hseg hloop
+    (by rw [hE]; exact hexp)
+
+/-- the song-side hypotheses are met by `c c c c L d` (original) and its fold `[c]4 L d` (same pair as
+`Properties/C02`, `OptEx`): the folded song is in the fragment and in the domain, and the two have the
+same expected tick string -/
+def oNote3 (p : Int) (on off : Nat) : Event := { type := ev_NOTE, param := p, on := on, off := off }
+def oRoot3 : List Event :=
+  [oNote3 36 24 0, oNote3 36 24 0, oNote3 36 24 0, oNote3 36 24 0, ⟨ev_SEGNO, 0, 0, 0⟩, oNote3 38 12 12]
+def oRoot3' : List Event := [⟨ev_LOOP_START, 0, 0, 0⟩, oNote3 36 24 0, ⟨ev_LOOP_END, 4, 0, 0⟩, ⟨ev_SEGNO, 0, 0, 0⟩, oNote3 38 12 12]
+example : SongTop.PlainSong { tracks := [(0, oRoot3')] } := SongTop.plainSong_of_B (by decide)
+example : Timeline.inDomain { tracks := [(0, oRoot3')] } oRoot3' = true ∧ SongSplit.segCount oRoot3' ≤ 1 := by decide
+example : (Timeline.expected { tracks := [(0, oRoot3')] } [] oRoot3').toOption =
+    (Timeline.expected { tracks := [(0, oRoot3)] } [] oRoot3).toOption ∧
+    ((Timeline.expected { tracks := [(0, oRoot3)] } [] oRoot3).toOption.map (·.length)) = some 145 := by
+  decide +kernel
 
 end Ctrmml.C03
